@@ -80,21 +80,19 @@ func parseSx(s string) (*sx, error) {
 func fieldOrder(t reflect.Type) []string { return verifFields[t.Name()] }
 
 func setHolder(v reflect.Value, b []byte) {
-	f, ok := v.Type().FieldByName("_unknownFields")
-	if !ok {
+	fv := v.FieldByName("_unknownFields")
+	if !fv.IsValid() || !fv.CanAddr() {
 		return
 	}
-	p := unsafe.Pointer(v.UnsafeAddr() + f.Offset)
-	*(*[]byte)(p) = b
+	reflect.NewAt(fv.Type(), unsafe.Pointer(fv.UnsafeAddr())).Elem().SetBytes(b)
 }
 
 func getHolder(v reflect.Value) []byte {
-	f, ok := v.Type().FieldByName("_unknownFields")
-	if !ok {
+	fv := v.FieldByName("_unknownFields")
+	if !fv.IsValid() || fv.Kind() != reflect.Slice {
 		return nil
 	}
-	p := unsafe.Pointer(v.UnsafeAddr() + f.Offset)
-	return *(*[]byte)(p)
+	return fv.Bytes()
 }
 
 // build stores the value described by x into the addressable v.
